@@ -1,16 +1,20 @@
-(* C01 - running a program yields exactly what its source text denotes. Property theorems only (definitional semantics in spec/Sem.v, fragment and observation relation in spec/Fragment.v, proofs in proofs/CompileCorrectA.v / CompileCorrectB.v). FULL STATEMENT (compile_correct): forall p, wf_prog p -> forall fuel r, sem_program orc fuel p = r -> r <> SemFuel -> exists budget, obs_eq (run_program orc bc budget) r. PROVED so far (compile_correct_F1, hence `_partial`): the fragment F1 = top-level declarations, assignments and expression statements over integer/boolean literals, all 13 binary and both prefix operators and global variables. Outside F1 the statement is carried per program by the correspondence of Compiler.v/VM.v with the implementation AND the evaluation of Sem.v on the same tree inside Coq. *)
+(* C01 - running a program yields exactly what its source text denotes. Property theorems only (definitional semantics in spec/Sem.v, fragment and observation relation in spec/Fragment.v, proofs in proofs/CompileCorrectA.v / CompileCorrectB.v). FULL STATEMENT (compile_correct): forall p, wf_prog p -> forall fuel r, sem_program orc fuel p = r -> r <> SemFuel -> exists budget, obs_eq (run_program orc bc budget) r. PROVED so far (hence `_partial`): fragment F2 = top-level code over integer/boolean literals, all 13 binary and both prefix operators, variables in nested block scopes (slot reuse included), assignment, blocks, als / anders als / anders as statement and as value, zolang with stop / volgende at any block depth of the loop body (compile_correct_F2; F1 = the same without blocks and control flow). Outside F1 the statement is carried per program by the correspondence of Compiler.v/VM.v with the implementation AND the evaluation of Sem.v on the same tree inside Coq. *)
 From NL.Model Require Import Pipeline.
-From NL.Spec Require Import Sem Fragment.
-From NL.Proofs Require CompileCorrectA CompileCorrectB.
+From NL.Spec Require Import Sem Fragment Fragment2.
+From NL.Proofs Require CompileCorrectA CompileCorrectB CompileCorrectC CompileCorrectD.
 Open Scope Z_scope.
 
-(* compiler correctness on fragment F1: what the machine computes from the compiled bytecode (value, output, error kind) is what the definitional semantics assigns to the tree *)
-Theorem compile_correct_partial : forall (orc : oracle) (p : block), in_F1 p = true -> ends_expr p = true -> forall bc : bytecode, compile p = Ok bc -> forall (fuel : nat) (r : sem_result), sem_program orc fuel p = r -> r <> SemFuel -> r <> SemRejected ESyntaxError -> exists budget : nat, obs_eq (run_program orc bc budget) r.
-Proof. exact CompileCorrectB.compile_correct_F1. Qed.
+(* compiler correctness on fragment F2 (scalars, variables in nested scopes, blocks, if-chains, loops with stop/volgende): what the machine computes from the compiled bytecode - value, output, error kind - is what the definitional semantics assigns to the tree *)
+Theorem compile_correct_partial : forall (orc : oracle) (p : block), in_F2 p = true -> ends_expr p = true -> forall bc : bytecode, compile p = Ok bc -> forall fuel : nat, (size2_b p <= fuel)%nat -> sem_program orc fuel p <> SemFuel -> exists budget : nat, obs_eq (run_program orc bc budget) (sem_program orc fuel p).
+Proof. exact CompileCorrectD.compile_correct_F2. Qed.
 
-(* ... stated with an explicit sufficient fuel for the static pass *)
-Theorem compile_correct_F1_fuel : forall (orc : oracle) (p : block), in_F1 p = true -> ends_expr p = true -> forall bc : bytecode, compile p = Ok bc -> forall fuel : nat, (size_block p <= fuel)%nat -> sem_program orc fuel p <> SemFuel -> exists budget : nat, obs_eq (run_program orc bc budget) (sem_program orc fuel p).
-Proof. exact CompileCorrectB.compile_correct_F1_fuel. Qed.
+(* every F2 program the compiler accepts passes the semantics' static pass *)
+Theorem static_accepts_F2 : forall (p : block) (bc : bytecode) (fuel : nat), in_F2 p = true -> compile p = Ok bc -> (size2_b p <= fuel)%nat -> static_check fuel p = None.
+Proof. exact CompileCorrectD.static_accepts_F2. Qed.
+
+(* fragment F1 (no blocks / control flow), without the self-initialiser exclusion F2 needs *)
+Theorem compile_correct_F1 : forall (orc : oracle) (p : block), in_F1 p = true -> ends_expr p = true -> forall bc : bytecode, compile p = Ok bc -> forall (fuel : nat) (r : sem_result), sem_program orc fuel p = r -> r <> SemFuel -> r <> SemRejected ESyntaxError -> exists budget : nat, obs_eq (run_program orc bc budget) r.
+Proof. exact CompileCorrectB.compile_correct_F1. Qed.
 
 (* expression level, for ANY compiler state, code buffer, pool and machine state: the emitted code pushes exactly the value the semantics gives, or stops with exactly its error *)
 Theorem compile_expr_correct_F1a : forall (orc : oracle) (e : expr), in_F1a e = true -> forall st st' : cstate, compile_expression e st = Ok st' -> exists (ce : list Z) (kx : list const), c_code st' = c_code st ++ ce /\ c_constants st' = c_constants st ++ kx /\ (forall prog : program, CompileCorrectA.code_at prog (code_len st) ce -> CompileCorrectA.consts_ok prog (c_constants st') -> forall s : vm, v_ip s = code_len st -> forall (fuel : nat) (c : dctx) (sst : sstate), match eval_expr orc fuel c e sst with | ROk v sst' => sst' = sst /\ CompileCorrectA.reaches orc prog s {| v_stack := v :: v_stack s; v_slen := v_slen s + 1; v_globals := v_globals s; v_frames := v_frames s; v_ip := code_len st'; v_bp := v_bp s; v_final := v_final s; v_heap := v_heap s; v_gc := v_gc s; v_out := v_out s |} | RErr k sst' => sst' = sst /\ CompileCorrectA.stops orc prog s (Err k) (v_out s) | RFuel => True | _ => False end).
@@ -26,7 +30,8 @@ Proof. exact CompileCorrectB.static_reject_F1. Qed.
 
 
 Print Assumptions compile_correct_partial.
-Print Assumptions compile_correct_F1_fuel.
+Print Assumptions static_accepts_F2.
+Print Assumptions compile_correct_F1.
 Print Assumptions compile_expr_correct_F1a.
 Print Assumptions compile_reject_F1.
 Print Assumptions static_reject_F1.
